@@ -4,7 +4,7 @@
 #  INCONCLUSIVE / VACUOUS / ENCODER-ERROR lines)
 mkdir -p /verif/out/quick
 for id in "$@"; do
-  /verif/bin/vsym check $id --tier ${TIER:-quick} > /verif/out/quick/$id.log 2>&1
+  /verif/bin/vsym check $id --tier ${TIER:-quick} $EXTRA > /verif/out/quick/$id.log 2>&1
   rc=$?
   echo "$id exit=$rc incomplete=$(grep -c '^INCONCLUSIVE\|^VACUOUS\|^ENCODER-ERROR' /verif/out/quick/$id.log) $(tail -1 /verif/out/quick/$id.log)" >> /verif/out/quick/SUMMARY.txt
 done
